@@ -203,7 +203,7 @@ var specC04Random = Register(&Spec[DepCase]{
 })
 
 func TestC04_Random(t *testing.T) {
-	specC04Random.Run(t, genDepCase, 15000, 150000)
+	specC04Random.Run(t, genDepCase, 25000, 200000)
 }
 
 // ------------------------------------------------------------------ C04/malformed
@@ -316,7 +316,7 @@ var specC04Malformed = Register(&Spec[BadDep]{
 })
 
 func TestC04_Malformed(t *testing.T) {
-	specC04Malformed.Run(t, genBadDep, 10000, 100000)
+	specC04Malformed.Run(t, genBadDep, 30000, 150000)
 }
 
 // ------------------------------------------------------------------ C04/dpkgguard
